@@ -3,6 +3,7 @@
 # Applies a PROPERTY-PRESERVING change to a scratch copy of /repo and runs the quick checks against it: every check
 # must stay silent (exit 0).  Nothing is applied to /repo.
 set -u
+ROOT=$(cd "$(dirname "$(readlink -f "$0")")/.." && pwd)
 export GOFLAGS=-mod=mod GOPROXY=off GOSUMDB=off GOTOOLCHAIN=local
 SRC=$(readlink -f "$1"); shift
 PROPS="$@"; [ -z "$PROPS" ] && PROPS="C01 C02 C03 C04 C05 C06 C07 C08 C09 C10 C11 C12 C13 C14 C15 C16 C17 C18 C19 C20"
@@ -14,7 +15,7 @@ SUITE=$(cd "$D" && go build ./... 2>&1 | head -3; go test -vet=off -count=1 ./..
 [ -n "$SUITE" ] && echo "SUITE-FAILS: $SUITE"
 ALARMS=""
 for P in $PROPS; do
-  OUT=$(cd /verif && VERIF_REPO="$D" VERIF_REPLAY_DIR=/verif/.build/benign-replays ./check "$P" 2>&1); RC=$?
+  OUT=$(cd "$ROOT" && VERIF_REPO="$D" VERIF_REPLAY_DIR="$ROOT/.build/benign-replays" ./check "$P" 2>&1); RC=$?
   if [ $RC -ne 0 ]; then ALARMS="$ALARMS $P"; echo "  ALARM $P rc=$RC $(echo "$OUT" | grep -m1 -A2 'VIOLATION\|INCONCLUSIVE' | tr '\n' ' ' | cut -c1-700)"; fi
 done
 echo "$(basename $(dirname $SRC))/$(basename $SRC): alarms:[${ALARMS# }]"
